@@ -18,12 +18,12 @@ LetterMul ==
 
 IPow(p) == Zeta((p % 4) * (M \div 4))
 
-IdWord(n) == [q \in 1..n |-> 0]
+IdWord(n) == TLCEval([q \in 1..n |-> 0])
 
 \* a * b = i^p * w
 MulWord(a, b, n) ==
-  [w |-> [q \in 1..n |-> LetterMul[a[q]+1][b[q]+1][1]],
-   p |-> SumSeq([q \in 1..n |-> LetterMul[a[q]+1][b[q]+1][2]], n) % 4]
+  [w |-> TLCEval([q \in 1..n |-> LetterMul[a[q]+1][b[q]+1][1]]),
+   p |-> SumSeq(TLCEval([q \in 1..n |-> LetterMul[a[q]+1][b[q]+1][2]]), n) % 4]
 
 \* symplectic test: the words commute iff they differ on an even number of
 \* positions where both are non-identity
@@ -34,8 +34,8 @@ QubitwiseCommute(a, b, n) == AntiPositions(a, b, n) = {}
 Support(w, n) == {q \in 1..n : w[q] # 0}
 
 \* ---- operators ------------------------------------------------------------
-OpZero == [w \in {} |-> RZero]
-OpClean(A) == LET D == {w \in DOMAIN A : A[w] # RZero} IN [w \in D |-> A[w]]
+OpZero == TLCEval([w \in {} |-> RZero])
+OpClean(A) == LET D == {w \in DOMAIN A : A[w] # RZero} IN TLCEval([w \in D |-> A[w]])
 OpEq(A, B) == OpClean(A) = OpClean(B)
 OpIsZero(A) == \A w \in DOMAIN A : A[w] = RZero
 Coef(A, w) == IF w \in DOMAIN A THEN A[w] ELSE RZero
@@ -43,27 +43,27 @@ Coef(A, w) == IF w \in DOMAIN A THEN A[w] ELSE RZero
 \* terms: sequence of [w |-> word, c |-> ring element]; duplicates are summed
 OpFromTerms(terms) ==
   LET W == {terms[i].w : i \in 1..Len(terms)}
-  IN OpClean([w \in W |-> FoldSet(LAMBDA i, acc : Add(acc, terms[i].c), RZero,
-                                   {i \in 1..Len(terms) : terms[i].w = w})])
+  IN OpClean(TLCEval([w \in W |-> FoldSet(LAMBDA i, acc : Add(acc, terms[i].c), RZero,
+                                   {i \in 1..Len(terms) : terms[i].w = w})]))
 
-OpWord(w)      == [v \in {w} |-> ROne]
-OpScale(z, A)  == OpClean([w \in DOMAIN A |-> Mul(z, A[w])])
-OpNeg(A)       == [w \in DOMAIN A |-> Neg(A[w])]
-OpAdd(A, B)    == OpClean([w \in (DOMAIN A) \cup (DOMAIN B) |-> Add(Coef(A, w), Coef(B, w))])
+OpWord(w)      == TLCEval([v \in {w} |-> ROne])
+OpScale(z, A)  == OpClean(TLCEval([w \in DOMAIN A |-> Mul(z, A[w])]))
+OpNeg(A)       == TLCEval([w \in DOMAIN A |-> Neg(A[w])])
+OpAdd(A, B)    == OpClean(TLCEval([w \in (DOMAIN A) \cup (DOMAIN B) |-> Add(Coef(A, w), Coef(B, w))]))
 OpSub(A, B)    == OpAdd(A, OpNeg(B))
 \* Pauli words are Hermitian: the adjoint conjugates the coefficients
-OpAdj(A)       == [w \in DOMAIN A |-> Conj(A[w])]
+OpAdj(A)       == TLCEval([w \in DOMAIN A |-> Conj(A[w])])
 OpIsHermitian(A) == \A w \in DOMAIN A : IsReal(A[w])
 
 OpMul(A, B, n) ==
   LET W == {MulWord(a, b, n).w : a \in DOMAIN A, b \in DOMAIN B}
-  IN OpClean([w \in W |->
+  IN OpClean(TLCEval([w \in W |->
        FoldSet(LAMBDA a, acc :
                  LET b == MulWord(a, w, n).w IN      \* a * w is proportional to the unique b with a * b ~ w
                  IF b \in DOMAIN B
                  THEN Add(acc, Mul(Mul(A[a], B[b]), IPow(MulWord(a, b, n).p)))
                  ELSE acc,
-               RZero, DOMAIN A)])
+               RZero, DOMAIN A)]))
 
 OpCommutator(A, B, n)     == OpSub(OpMul(A, B, n), OpMul(B, A, n))
 OpAntiCommutator(A, B, n) == OpAdd(OpMul(A, B, n), OpMul(B, A, n))
@@ -75,14 +75,14 @@ OpPower(A, e, n) == IF e = 0 THEN OpIdentity(n) ELSE OpMul(A, OpPower(A, e - 1, 
 \* ---- action on computational basis states --------------------------------
 \* w |x> = i^p |y>;  x, y are 0-based amplitude indices (qubit 0 most significant)
 ActWord(w, x0, n) ==
-  [y |-> x0 + SumSeq([q \in 1..n |->
-             IF w[q] \in {1, 2} THEN (1 - 2 * BitAt(x0, q - 1, n)) * Pow2(n - q) ELSE 0], n),
-   p |-> SumSeq([q \in 1..n |->
+  [y |-> x0 + SumSeq(TLCEval([q \in 1..n |->
+             IF w[q] \in {1, 2} THEN (1 - 2 * BitAt(x0, q - 1, n)) * Pow2(n - q) ELSE 0]), n),
+   p |-> SumSeq(TLCEval([q \in 1..n |->
              LET b == BitAt(x0, q - 1, n) IN
              CASE w[q] = 0 -> 0
                [] w[q] = 1 -> 0
                [] w[q] = 2 -> 1 + 2 * b
-               [] w[q] = 3 -> 2 * b], n) % 4]
+               [] w[q] = 3 -> 2 * b]), n) % 4]
 
 \* <x| w |y>
 WordElement(w, x0, y0, n) == LET r == ActWord(w, y0, n) IN IF r.y = x0 THEN IPow(r.p) ELSE RZero
@@ -96,25 +96,25 @@ OpExpectBasis(A, x0, n) == OpElement(A, x0, x0, n)
 
 \* <psi| w |psi> for an exact statevector
 ExpectWord(w, psi, n) ==
-  SumRing([i \in 1..Dim(n) |->
+  SumRing(TLCEval([i \in 1..Dim(n) |->
              LET r == ActWord(w, i - 1, n) IN
-             Mul(Conj(psi[r.y + 1]), Mul(IPow(r.p), psi[i]))], Dim(n))
+             Mul(Conj(psi[r.y + 1]), Mul(IPow(r.p), psi[i]))]), Dim(n))
 
 ExpectOp(A, psi, n) ==
   FoldSet(LAMBDA w, acc : Add(acc, Mul(A[w], ExpectWord(w, psi, n))), RZero, DOMAIN A)
 
 \* A |psi>
 ApplyOp(A, psi, n) ==
-  [x \in 1..Dim(n) |->
+  TLCEval([x \in 1..Dim(n) |->
      FoldSet(LAMBDA w, acc :
                \* the y with w|y> ~ |x> is y = flips(x)
                LET y0 == ActWord(w, x - 1, n).y
                    r  == ActWord(w, y0, n)
                IN Add(acc, Mul(Mul(A[w], IPow(r.p)), psi[y0 + 1])),
-             RZero, DOMAIN A)]
+             RZero, DOMAIN A)])
 
 \* dense matrix (columns) of an operator; Mat[col][row]
-OpMatrix(A, n) == [col \in 1..Dim(n) |-> [row \in 1..Dim(n) |-> OpElement(A, row - 1, col - 1, n)]]
+OpMatrix(A, n) == TLCEval([col \in 1..Dim(n) |-> TLCEval([row \in 1..Dim(n) |-> OpElement(A, row - 1, col - 1, n)])])
 
 AllWords(n) == [1..n -> 0..3]
 =============================================================================
